@@ -139,7 +139,7 @@ def acsch(ctx, z): return ctx.asinh(ctx.one / z)
 def sign(ctx, x):
     x = ctx.convert(x)
     if not x or ctx.isnan(x):
-        return x
+        return +x
     if ctx._is_real_type(x):
         if x > 0:
             return ctx.one
